@@ -401,6 +401,9 @@ bool ZCK_PUBLIC_API zck_close(zckCtx *zck) {
     VALIDATE_BOOL(zck);
 
     if(zck->mode == ZCK_MODE_WRITE) {
+        /* The final chunk has to be written out even if it is smaller than
+         * the minimum chunk size, otherwise its data would be lost */
+        zck->chunk_min_size = 0;
         if(zck_end_chunk(zck) < 0)
             return false;
         if(!header_create(zck))
